@@ -123,3 +123,51 @@ impl Aes128Gcm {
         ensures match aead_open(0, self.key(), nonce@, norm_aad(associated_data@), old(buffer).bview()) { Some(pt) => r is Ok && final(buffer).bview() == pt, None => r is Err }
     { unimplemented!() }
 }
+
+// ---- hashes: uninterpreted, named; the streaming hashers accumulate their input
+pub uninterp spec fn md5(x: Seq<u8>) -> Seq<u8>;
+pub uninterp spec fn sha256(x: Seq<u8>) -> Seq<u8>;
+#[verifier::external_body]
+pub broadcast proof fn axiom_md5_len(x: Seq<u8>) ensures #[trigger] md5(x).len() == 16 {}
+#[verifier::external_body]
+pub broadcast proof fn axiom_sha256_len(x: Seq<u8>) ensures #[trigger] sha256(x).len() == 32 {}
+/// what a hasher's `update` accepts (`impl AsRef<[u8]>` in the digest crate)
+pub trait HashInput { spec fn hbytes(&self) -> Seq<u8>; }
+impl HashInput for &[u8] { open spec fn hbytes(&self) -> Seq<u8> { self@ } }
+impl<const N: usize> HashInput for [u8; N] { open spec fn hbytes(&self) -> Seq<u8> { self@ } }
+impl<const N: usize> HashInput for &[u8; N] { open spec fn hbytes(&self) -> Seq<u8> { self@ } }
+impl HashInput for &DigestOut { open spec fn hbytes(&self) -> Seq<u8> { self@ } }
+/// GenericArray<u8, N> returned by finalize: only its byte view is used
+#[verifier::external_body]
+pub struct DigestOut { _d: u8 }
+impl View for DigestOut { type V = Seq<u8>; uninterp spec fn view(&self) -> Seq<u8>; }
+impl core::ops::Deref for DigestOut {
+    type Target = [u8];
+    #[verifier::external_body]
+    fn deref(&self) -> (r: &[u8]) ensures r@ == self@ { unimplemented!() }
+}
+#[verifier::external_body]
+pub struct Md5 { _h: u8 }
+impl Md5 {
+    pub uninterp spec fn acc(&self) -> Seq<u8>;
+    #[verifier::external_body]
+    pub fn new() -> (r: Md5) ensures r.acc() == Seq::<u8>::empty() { unimplemented!() }
+    #[verifier::external_body]
+    pub fn update<T: HashInput>(&mut self, data: T) ensures final(self).acc() == old(self).acc() + data.hbytes() { unimplemented!() }
+    #[verifier::external_body]
+    pub fn finalize_reset(&mut self) -> (r: DigestOut) ensures r@ == md5(old(self).acc()), final(self).acc() == Seq::<u8>::empty() { unimplemented!() }
+    #[verifier::external_body]
+    pub fn finalize(self) -> (r: DigestOut) ensures r@ == md5(self.acc()) { unimplemented!() }
+}
+#[verifier::external_body]
+pub struct Sha256 { _h: u8 }
+impl Sha256 {
+    pub uninterp spec fn acc(&self) -> Seq<u8>;
+    #[verifier::external_body]
+    pub fn new() -> (r: Sha256) ensures r.acc() == Seq::<u8>::empty() { unimplemented!() }
+    #[verifier::external_body]
+    pub fn update<T: HashInput>(&mut self, data: T) ensures final(self).acc() == old(self).acc() + data.hbytes() { unimplemented!() }
+    #[verifier::external_body]
+    pub fn finalize_reset(&mut self) -> (r: DigestOut) ensures r@ == sha256(old(self).acc()), final(self).acc() == Seq::<u8>::empty() { unimplemented!() }
+}
+impl HashInput for &Vec<u8> { open spec fn hbytes(&self) -> Seq<u8> { self@ } }
